@@ -42,8 +42,18 @@ fn render_nh(n: &Option<bgp::Nexthop>) -> String {
     }
 }
 
+/// When set (by the copy of this file that is compiled inside daemon/src/bmp.rs, see
+/// c18b.rs), the events received before EndOfSnapshot are folded by the daemon's own
+/// `apply_snapshot` instead of this module's fold: the callback gets the buffered
+/// changes in arrival order and returns the net state as single-NLRI changes.
+pub(crate) static SNAPSHOT_FOLDER: std::sync::OnceLock<
+    fn(Vec<crate::table_manager::AdjRibInChange>) -> Vec<crate::table_manager::AdjRibInChange>,
+> = std::sync::OnceLock::new();
+
 #[derive(Default)]
 struct Fold {
+    snap_pre: Vec<crate::table_manager::AdjRibInChange>,
+    snap_post: Vec<crate::table_manager::AdjRibInChange>,
     pre: BTreeMap<Key, Val>,
     post: BTreeMap<Key, Val>,
     before_sentinel: u64,
@@ -60,18 +70,40 @@ impl Fold {
         match ev {
             BgpEvent::AdjRibIn(c) => {
                 self.count(c.attrs.is_none());
-                Self::fold(&mut self.pre, c)
+                if !self.sentinel_seen && SNAPSHOT_FOLDER.get().is_some() {
+                    self.snap_pre.push(c);
+                } else {
+                    Self::fold(&mut self.pre, c)
+                }
             }
             BgpEvent::AdjRibInPost(c) => {
                 self.count(c.attrs.is_none());
-                Self::fold(&mut self.post, c)
+                if !self.sentinel_seen && SNAPSHOT_FOLDER.get().is_some() {
+                    self.snap_post.push(c);
+                } else {
+                    Self::fold(&mut self.post, c)
+                }
             }
             BgpEvent::PeerDown(d) => {
                 self.peer_down += 1;
                 self.pre.retain(|k, _| k.0 != d.peer_addr);
                 self.post.retain(|k, _| k.0 != d.peer_addr);
+                // the snapshot buffers are cleared too: a peer-down during the snapshot
+                // phase removes what was buffered for that peer
+                self.snap_pre.retain(|c| c.source.remote_addr != d.peer_addr);
+                self.snap_post.retain(|c| c.source.remote_addr != d.peer_addr);
             }
-            BgpEvent::EndOfSnapshot => self.sentinel_seen = true,
+            BgpEvent::EndOfSnapshot => {
+                self.sentinel_seen = true;
+                if let Some(f) = SNAPSHOT_FOLDER.get() {
+                    for c in f(std::mem::take(&mut self.snap_pre)) {
+                        Self::fold(&mut self.pre, c);
+                    }
+                    for c in f(std::mem::take(&mut self.snap_post)) {
+                        Self::fold(&mut self.post, c);
+                    }
+                }
+            }
             _ => {}
         }
     }
@@ -477,6 +509,9 @@ fn run_history(seed: u64, cfg: &HistoryCfg, rep: &mut Report) {
         }
     }
     rep.count("histories");
+    if SNAPSHOT_FOLDER.get().is_some() {
+        rep.count("histories-folded-with-daemon-apply_snapshot");
+    }
     rep.nontrivial(ih);
     if rep.want_sample() {
         rep.sample(Json::obj(vec![
@@ -500,6 +535,10 @@ fn run_history(seed: u64, cfg: &HistoryCfg, rep: &mut Report) {
 
 #[test]
 fn run() {
+    run_entry();
+}
+
+pub(crate) fn run_entry() {
     let params = Params::from_args_env();
     let mut rep = Report::new("C18", &params);
     let mut rng = Rng::new(params.seed ^ 0xC18);
